@@ -40,7 +40,7 @@ PROPS = {
     "C07": {
         "level": "translation_validation",
         "streams": _gen_streams(1200, 12000),
-        "rule": "bounded-exhaustive: 9 base types (bool int float string object alias enum struct empty-struct) x 12 wrapper prefixes up to depth 2 (?, [], [string] and their pairs) x 6 positions (method input, method output, error parameter, alias field, alias body, nested in struct/array/map); 65 Go keywords / predeclared / imported / generator-local identifiers as field names alone at every position and all together; typeless errors; dashes, upper case, xn-- in interface names; package names equal to imported packages and predeclared names; doc comments with backticks, CR, CRLF, quotes, unicode; member names equal to identifiers of the generated file and of varlink.Call; deliberately out-of-domain descriptions (enum-typed errors and inputs = crash path, non-struct in/out/error types, duplicate fields, unresolved references, reserved member names, direct recursion, non-UTF-8); plus random interfaces (0-3 aliases with forward and backward references, 1-3 methods, 0-2 errors, types up to depth 3, random layout, CRLF files). Every case: real generator twice, model text after go/format byte-equal, view equal; the first ~960 cases (quick) / all cases (thorough) are compiled with go build against /repo and linked into a probe that prints VarlinkGetName/VarlinkGetDescription. non-trivial = a description using at least 2 distinct type constructors",
+        "rule": "bounded-exhaustive: 9 base types (bool int float string object alias enum struct empty-struct) x 12 wrapper prefixes up to depth 2 (?, [], [string] and their pairs) x 6 positions (method input, method output, error parameter, alias field, alias body, nested in struct/array/map); 65 Go keywords / predeclared / imported / generator-local identifiers as field names alone at every position and all together; typeless errors; dashes, upper case, xn-- in interface names; package names equal to imported packages and predeclared names; the former defect inputs as regression cases (package name a Go keyword or main: i.f, fu.nc, g.o, Ty.Pe, im.port, ma.in; @IMPORTS@, json.RawMessage, fmt.Sprintf, context.Context in interface and member documentation and in interface names, with and without the packages being used); doc comments with backticks, CR, CRLF, quotes, unicode; member names equal to identifiers of the generated file and of varlink.Call; deliberately out-of-domain descriptions (enum-typed errors and inputs = crash path, non-struct in/out/error types, duplicate fields, unresolved references, reserved member names, direct recursion, non-UTF-8); plus random interfaces (0-3 aliases with forward and backward references, 1-3 methods, 0-2 errors, types up to depth 3, random layout, CRLF files). Every case: real generator twice, model text after go/format byte-equal, view equal; the first ~960 cases (quick) / all cases (thorough) are compiled with go build against /repo and linked into a probe that prints VarlinkGetName/VarlinkGetDescription. non-trivial = a description using at least 2 distinct type constructors",
         "trusted_base": GEN_TB,
         "assumptions": [
             "description and documentation are valid UTF-8 without NUL and byte order mark (explicit Domain condition cleanText)",
